@@ -172,6 +172,18 @@ def check_add_step(ctx, parent, sub, mode, group, label, snapshot=None):
 def _mk_sub(ctx, name, k, heralds, lossy=False, inner=None):
     """sub-circuit: symbolic block (optionally an inner heralded group first), heralds declared in the given order."""
     lw = ctx.lw
+    if inner is not None and len(inner) > 4:
+        # the sub-circuit declares its own heralds first and receives an inner
+        # heralded circuit afterwards (its herald bookkeeping is shifted by the
+        # inserted ancilla before it is itself added to the parent)
+        c = lw.Circuit(k)
+        c.add(_block_circuit(ctx, name + "o", k), 0)
+        for (p, hi, ho) in heralds:
+            c.herald(p, hi, ho)
+        isub = _block_circuit(ctx, name + "i", 2)
+        isub.herald(inner[0], inner[1], inner[2])
+        c.add(isub, inner[3])
+        return c
     if inner is None:
         c = _block_circuit(ctx, name, k)
     else:
@@ -261,6 +273,19 @@ def cases(tier):
                             if any(hi == 0 or ho == 0 for (_, hi, ho) in hs):
                                 continue
                             out.append(dict(n=n, earlier=earlier, k=k, heralds=[(p, hi + 1, ho + 1) for (p, hi, ho) in hs if hi + 1 < 4 and ho + 1 < 4][:0] or hs, lossy=False, inner=(1, 0, 1, 0), group=True))
+    # sub-circuits whose own heralds were declared before an inner heralded
+    # circuit was added to them (nesting depth 2, ancilla inserted between the
+    # sub-circuit's herald modes)
+    for k in ((3, 4) if tier == "quick" else (3, 4, 5)):
+        hsets = [hs for hs in _herald_sets(k, 2, tier) if hs[0][0] != hs[1][0]]
+        if tier == "quick":
+            hsets = hsets[:: (1 if k == 3 else 5)]
+        for hs in hsets:
+            for pos in range(k - 2):
+                for n, earlier in ((max(2, k - 2), []), (3, [(2, [(1, 0, 1)])])):
+                    if k - 2 + 1 > n + 0:
+                        pass
+                    out.append(dict(n=n, earlier=earlier, k=k, heralds=hs, lossy=False, inner=(1, 0, 1, pos, "late"), group=True))
     return out
 
 
